@@ -73,4 +73,9 @@ CensusKept(f) == f.census_lost = <<>> /\ f.census_gained = <<>>
 
 \* C06: fixpoint
 Fixpoint(x) == x.outcome = "ok" /\ x.equal
+
+(* beyond the listed properties: format_code is a function of (text, configuration) - repeating the first Format *)
+(* action of a case after every other configuration has been formatted on the same thread gives the same outcome *)
+(* (no state is kept between calls; the command-line counterpart is C19's independence of the worker pick-up order) *)
+Deterministic(f) == Has(f, "again_same") => f.again_same
 =============================================================================
